@@ -14,7 +14,9 @@
 (* Three layers per line:                                                  *)
 (*  - model:   the plan is replayed on the abstract tree of XmlMutate      *)
 (*             (a step that is not enabled there is skipped) and           *)
-(*             WellFormed is evaluated on the result;                      *)
+(*             WellFormed is evaluated on the result; a position plan (one *)
+(*             move of Moves(seed) on the concrete seed, "abs") must be a  *)
+(*             move of the alphabet;                                       *)
 (*  - monitor: the C02 predicates on the logged observations only: every   *)
 (*             begun document is finished (a Begin that is followed by     *)
 (*             another Begin or by the end of the trace is a crash or a    *)
@@ -66,9 +68,14 @@ BeginStep(ev) ==
     /\ open' = ev.case
     /\ UNCHANGED <<vars, ndiv, ncases, nruns, nwf>>
 
+\* position plans ("abs": every enabled move on the concrete seed itself) are not replayed on the
+\* abstract tree: the model layer checks that the step is a move of the alphabet
+IsPosition(steps) == Len(steps) = 1 /\ "abs" \in DOMAIN steps[1]
+
 DocStep(ev, steps) ==
-    LET r == Replay(Seed, steps, 1)
-        modelWf == WF(r[1])
+    LET pos == IsPosition(steps)
+        r == IF pos THEN <<Seed, ev.applied>> ELSE Replay(Seed, steps, 1)
+        modelWf == IF pos THEN steps[1].op \in AllOps ELSE WF(r[1])
         found == {[case |-> ev.case, prop |-> PropOf(ev.bad[i].k), cls |-> ev.bad[i].c, kind |-> ev.bad[i].k] : i \in 1..Len(ev.bad)}
         notDone == IF P_Terminated(ev.done) THEN {} ELSE {[case |-> ev.case, prop |-> "Terminated", cls |-> "", kind |-> "not-done"]}
         diverged == steps # <<>> /\ r[2] # ev.applied
